@@ -52,6 +52,7 @@ def verify_function(eng, qualname):
         if n not in c.params:
             raise ContractError("%s: parameter %s has no declared kind" % (qualname, n))
         st.env[n] = make_param(eng, st, n, c.params[n], n in nullable)
+    st.env['_any_task_failed'] = vbool(False)       # ghost: set on paths on which a worker failure was observed
     f.entry_env = dict(st.env)
     f.entry_heap = st.heap.copy()
     old = (f.entry_env, f.entry_heap)
@@ -80,6 +81,9 @@ def verify_function(eng, qualname):
                 res = coerce(eng, s, res, c.returns, qualname + ':result')
             env = dict(f.entry_env)
             env['result'] = res
+            for gn in ('_any_task_failed', '_pool_created', '_pool_closed', '_pool_joined'):
+                if gn in s.env:
+                    env[gn] = s.env[gn]
             # ghost out-parameters: locals exposed to the postcondition under another name
             for gname, local in (c.ghost.get('returns') or {}).items():
                 if local not in s.env:
@@ -87,7 +91,11 @@ def verify_function(eng, qualname):
                 env[gname] = s.env[local]
             for label, clause in c.labelled(c.ensures, 'post'):
                 t = eval_bool(eng, clause, env, s, old=old)
-                eng.oblige(s, "post:%s" % label, 'post', t, fdef)
+                if label.startswith('def:'):
+                    # definitional clause: introduces a spec predicate as an abbreviation for a fact about this result
+                    eng.assumed.add("definitional clause %s of %s" % (label, qualname))
+                else:
+                    eng.oblige(s, "post:%s" % label, 'post', t, fdef)
                 s.assume(t)     # later clauses may use earlier ones (each is an obligation of its own)
             # vacuity canary: the hypotheses accumulated on (at least one) return path must be satisfiable
             eng.oblige(s, "cover:return", 'cover', z3.BoolVal(False), fdef, expect_sat=True)
@@ -104,6 +112,9 @@ def verify_function(eng, qualname):
                     eng.oblige(s, "xpost:%s:only-when" % exc, 'xpost', t, fdef)
                 for label, clause in c.labelled(c.ghost.get('xensures', {}).get(exc, []), 'xens'):
                     env = dict(f.entry_env)
+                    for gn in ('_any_task_failed', '_pool_created', '_pool_closed', '_pool_joined'):
+                        if gn in s.env:
+                            env[gn] = s.env[gn]
                     t2 = eval_bool(eng, clause, env, s, old=old)
                     eng.oblige(s, "xpost:%s:%s" % (exc, label), 'xpost', t2, fdef)
             else:
